@@ -5,12 +5,17 @@ Every async generator is registered on first iteration through
 CancelledError at exactly the k-th suspension; consumer ``aclose()`` after
 exactly k chunks; data raising at exactly the j-th data event) or as a task
 under a real, fresh event loop; when the driven coroutine / task is finished a
-census decides: no generator whose code is compiled template code may still
-have a frame."""
+census decides: no async generator whose code is compiled template code or
+engine code (other than the value a filter returned) may still have a frame.
+The iterables of the data are of every kind (sync generators, iterators,
+__iter__-only objects, async generators, async iterators without aclose(),
+__aiter__-only objects, user-wrapped sync generators) at every iteration site."""
 from __future__ import annotations
 
 import asyncio
 import contextlib
+import inspect
+import os
 import re
 
 from vt import core
@@ -26,11 +31,23 @@ RULE = ("case = generated template set (main + parent chain + include targets in
         "close / cancel / raise point also falls inside included output: blocks, "
         "super, self.block(), scoped blocks in loops, macros/call blocks, loop filters on list / "
         "async-iterable / async-generator / filter-pipeline iterables, nested + recursive loops, "
-        "break/continue) x one run spec (driver in {manual render_async, manual generate_async, "
+        "break/continue; ITERABLE KINDS at every iteration site: mk(kind, ...) with kind in {sync "
+        "generator object, iterator object, object with __iter__ only (list iterator / generator "
+        "function), data async generator, async iterator without aclose whose __aiter__ returns "
+        "self, object whose __aiter__ returns a new async iterator / is an async generator "
+        "function, sync generator wrapped by user code in an async generator} + list / range / "
+        "filter result, at the sites {for, for..if, for..else, recursive for (top iterable and the "
+        "iterable handed to loop()), filters that iterate (map/select/reject/list/sum/first/join/"
+        "unique/slice/groupby; sync kinds also batch/sort/max/reverse), `in` tests, unpacking "
+        "targets ({% set a, b = it %}, for a, b in it-of-pairs, for a, b in list-of-iterables)}) "
+        "x one run spec (driver in {manual render_async, manual generate_async, "
         "task running render_async, task consuming generate_async} x outcome in {completes; data "
         "raises at j-th data event, every j; consumer aclose() after k chunks, every k; "
         "CancelledError at k-th suspension, every k (manual) / task.cancel() at sampled k (real "
-        "loop)}); after each run: census of all async generators registered by the firstiter hook. "
+        "loop)}); after each run: census of all async generators registered by the firstiter hook: "
+        "none made by compiled template code or by engine code outside the filter/test modules may "
+        "still be suspended (the key names what data iterable its frame holds); state of the "
+        "data's sync generators recorded. "
         "distinct = (template-set hash, driver, outcome, index) of runs in which >= 2 "
         "template-created generators were registered (something besides the root)")
 TECHNIQUE = "asyncgen-hook census after exhaustive fault/cancel/close-point enumeration"
@@ -39,8 +56,15 @@ LEVEL_TEXT = ("held/violated on the enumerated runs only: every data-raise point
               "stepper for all, real event loop for a sample")
 ASSUMPTIONS = [
     "template-created generator == async generator whose code object's co_filename is not a file "
-    "on disk; generators from files under the repository src (async filters) and data generators "
+    "on disk; engine-created generator == code in a file under the repository src that does not "
+    "define a registered filter/test (found by unwrapping env.filters / env.tests): both decide. "
+    "Async generators made by code in the filter/test modules are values RETURNED by filters "
+    "(map, select, ...), handed on like the data's own async generators; neither Python's async "
+    "for nor the documentation closes an iterable it was given, so these and the data's generators "
     "are counted but do not decide",
+    "sync generators handed in by the data: the documentation says nothing about their state "
+    "after a render that left a loop early (the sync engine leaves them suspended as well), so "
+    "their state at the census is recorded, not judged",
     "suspension points are those of the data (async callables / iterables awaiting a bare yield); "
     "the engine itself adds none",
     "a consumer that stops early calls aclose() (the harness never abandons a coroutine)",
@@ -56,7 +80,32 @@ FLOORS = {
                            "gens_loop_filter_registered": 30000, "gens_block_registered": 19000,
                            "census_checks": 6000,
                            "gens_of_include_templates_registered": 4000,
-                           "cases_with_include_ignore_missing_of_existing_target": 25}},
+                           "cases_with_include_ignore_missing_of_existing_target": 25,
+                           # iterable kinds x iteration sites (a quarter of a run at load ~8x:
+                           # 165 cases / 24k runs)
+                           "gens_engine_registered": 3500,
+                           "iterables_made:sgen": 1500, "iterables_made:sit": 1500,
+                           "iterables_made:sobj": 1500, "iterables_made:sgobj": 1500,
+                           "iterables_made:agen": 1500, "iterables_made:aiter": 1500,
+                           "iterables_made:aobj": 1500, "iterables_made:agobj": 1500,
+                           "iterables_made:wgen": 1500,
+                           "site_class:for": 40, "site_class:for-if": 110,
+                           "site_class:for-else": 35, "site_class:recursive": 40,
+                           "site_class:recursive-kids": 25, "site_class:filter": 30,
+                           "site_class:filter-sync": 12, "site_class:in-test": 10,
+                           "site_class:unpack-set": 8, "site_class:unpack-for": 9,
+                           "site_class:unpack-items": 4,
+                           "site_kind:sgen": 20, "site_kind:sit": 20, "site_kind:sobj": 20,
+                           "site_kind:sgobj": 20, "site_kind:agen": 20, "site_kind:aiter": 20,
+                           "site_kind:aobj": 20, "site_kind:agobj": 20, "site_kind:wgen": 20,
+                           "sync_generator_left_early:sgen": 600,
+                           "sync_generator_left_early:sgobj.__iter__()": 700,
+                           "sync_generator_left_early:wgen.inner": 600,
+                           "sync_generator_left_early_when:body-raises": 750,
+                           "sync_generator_left_early_when:cancelled": 1100,
+                           "sync_generator_left_early_when:consumer-aclose": 400,
+                           "sync_generator_left_early_when:break": 45,
+                           "sync_generator_left_early_when:completes": 4}},
     "thorough": {"evaluations": 140000, "distinct": 140000,
                  "counters": {"runs_cancel_manual": 50000, "runs_aclose": 20000,
                               "runs_raise": 40000, "runs_real_loop": 30000,
@@ -64,7 +113,32 @@ FLOORS = {
                               "gens_loop_filter_registered": 700000,
                               "gens_block_registered": 400000, "census_checks": 140000,
                               "gens_of_include_templates_registered": 100000,
-                              "cases_with_include_ignore_missing_of_existing_target": 600}},
+                              "cases_with_include_ignore_missing_of_existing_target": 600,
+                              # a quarter of a 441 s run under load (2401 cases / 486k runs)
+                              "gens_engine_registered": 65000,
+                              "iterables_made:sgen": 50000, "iterables_made:sit": 50000,
+                              "iterables_made:sobj": 50000, "iterables_made:sgobj": 50000,
+                              "iterables_made:agen": 50000, "iterables_made:aiter": 50000,
+                              "iterables_made:aobj": 50000, "iterables_made:agobj": 50000,
+                              "iterables_made:wgen": 50000,
+                              "site_class:for": 700, "site_class:for-if": 2000,
+                              "site_class:for-else": 700, "site_class:recursive": 700,
+                              "site_class:recursive-kids": 450, "site_class:filter": 500,
+                              "site_class:filter-sync": 160, "site_class:in-test": 180,
+                              "site_class:unpack-set": 180, "site_class:unpack-for": 180,
+                              "site_class:unpack-items": 90,
+                              "site_kind:sgen": 330, "site_kind:sit": 330, "site_kind:sobj": 330,
+                              "site_kind:sgobj": 330, "site_kind:agen": 330,
+                              "site_kind:aiter": 330, "site_kind:aobj": 330,
+                              "site_kind:agobj": 330, "site_kind:wgen": 330,
+                              "sync_generator_left_early:sgen": 16000,
+                              "sync_generator_left_early:sgobj.__iter__()": 17000,
+                              "sync_generator_left_early:wgen.inner": 13000,
+                              "sync_generator_left_early_when:body-raises": 17000,
+                              "sync_generator_left_early_when:cancelled": 22000,
+                              "sync_generator_left_early_when:consumer-aclose": 7000,
+                              "sync_generator_left_early_when:break": 850,
+                              "sync_generator_left_early_when:completes": 160}},
 }
 
 INC_IGN_EXISTING = re.compile(
@@ -85,6 +159,19 @@ class CaseEnv:
                                extensions=["jinja2.ext.loopcontrols"],
                                autoescape=bool(case["autoescape"]))
         self.env.globals.update(self.data.globals())
+        # files of the repository that define registered filters / tests: async
+        # generators made by code in them are values returned by filters
+        src = os.path.realpath(core.REPO_SRC) + os.sep
+        self.value_files = set()
+        for f in list(self.env.filters.values()) + list(self.env.tests.values()):
+            try:
+                code = getattr(inspect.unwrap(f), "__code__", None)
+            except ValueError:
+                code = None
+            if code is not None and os.path.isfile(code.co_filename):
+                rp = os.path.realpath(code.co_filename)
+                if rp.startswith(src):
+                    self.value_files.add(rp)
         self.codemap = {}
         for name in sorted(case["tpls"]):
             t = self.env.get_template(name)
@@ -113,7 +200,7 @@ def run_one(ce, spec, ctx=None):
     real = driver.startswith("real")
     d.reset(raise_at=k if outcome == "raise" else None,
             cancel_at=k if outcome == "cancel" else None, real=real)
-    tr = A.Tracker(core.REPO_SRC)
+    tr = A.Tracker(core.REPO_SRC, ce.value_files)
 
     def is_nested(r):
         return r.origin == "template" and r.code not in ce.codemap
@@ -127,10 +214,24 @@ def run_one(ce, spec, ctx=None):
     res = {"kind": None, "val": None, "chunks": None, "aclose_exc": None}
     census = []
 
+    syncgens = []
+
     def take_census():
+        wanted = None
         for r, is_open in tr.census():
             role, sub = ce.kind_of(r)
-            census.append((r.origin, role, sub, is_open, r.mark, r.name))
+            held = None
+            if is_open and r.origin == "engine":
+                if wanted is None:
+                    wanted = {id(o): GEN.KIND_TEXT[k] for k, o in d.iterables}
+                try:
+                    held = A.holds(r.ag, wanted)
+                except Exception:  # noqa: BLE001 - description only
+                    held = ["?"]
+            census.append((r.origin, role, sub, is_open, r.mark, r.name, held))
+        for k, o in d.iterables:
+            if inspect.isgenerator(o):
+                syncgens.append((k, inspect.getgeneratorstate(o)))
 
     main = ce.main
     if not real:
@@ -195,6 +296,8 @@ def run_one(ce, spec, ctx=None):
             loop.close()
     d.on_break = None
     res["census"] = census
+    res["syncgens"] = syncgens
+    res["made"] = [k for k, _o in d.iterables]
     res["finals"] = list(tr.final_calls)
     res["calls"] = d.calls
     res["susp"] = d.susp
@@ -212,8 +315,39 @@ def judge(ctx, ce, spec, res, san):
     ctx.count("census_checks")
     ntpl = 0
     nopen_tpl = 0
-    for origin, role, sub, is_open, mark, name in res["census"]:
+    for k in res["made"]:
+        ctx.count("iterables_made:" + k)
+    for k, state in res["syncgens"]:
+        # data's sync generators: the documentation promises nothing about their
+        # state after a render (the sync engine leaves them suspended too)
+        ctx.count("data_sync_generators_at_census:%s(not deciding)" % state)
+        if state == "GEN_SUSPENDED":
+            ctx.count("sync_generator_left_early:" + k)
+            ctx.count("sync_generator_left_early_when:" + (
+                "break" if outcome == "complete" and res["breaks"] else CAUSE[outcome]))
+    nopen_eng = 0
+    for origin, role, sub, is_open, mark, name, held in res["census"]:
         ctx.count("gens_%s_registered" % origin)
+        if origin == "engine":
+            if is_open:
+                # an async generator made by the engine's own machinery (not a
+                # filter's return value) is suspended although the render is over
+                nopen_eng += 1
+                cause = CAUSE[outcome]
+                if outcome == "complete" and res["breaks"]:
+                    cause = "break"
+                key = "engine-generator-open:holds-%s:%s" % ("+".join(held) or "no-data-iterable",
+                                                           cause)
+                ctx.count("open_at_census:" + key)
+                ctx.violation(
+                    key,
+                    "async generator %r created by engine code (not a filter result) still has a "
+                    "live frame when the render finished; its frame holds %s; driver=%s outcome=%s "
+                    "k=%s kind=%s main=%r"
+                    % (name, held or "no data iterable", spec["driver"], outcome, spec.get("k"),
+                       case["kind"], case["tpls"][case["main"]][:300]),
+                    rcase)
+            continue
         if origin != "template":
             if is_open:
                 ctx.count("gens_%s_open_at_census(not deciding)" % origin)
@@ -247,6 +381,11 @@ def judge(ctx, ce, spec, res, san):
     for f in res["finals"]:
         if f[0] != "template":
             ctx.count("finalizer_calls_%s(not deciding)" % f[0])
+    nfin_eng = sum(1 for f in res["finals"] if f[0] == "engine")
+    if nfin_eng > nopen_eng:
+        ctx.violation("finalizer-called-for-engine-generator:" + CAUSE[outcome],
+                      "finalizer hook called for %d engine generators but only %d were open "
+                      "at the census: %r" % (nfin_eng, nopen_eng, res["finals"]), rcase)
     if nfin_tpl > nopen_tpl:
         ctx.violation("finalizer-called-for-template-generator:" + CAUSE[outcome],
                       "finalizer hook called for %d template generators but only %d were open "
@@ -308,6 +447,12 @@ def run_case(ctx, case, quick, rng):
             ctx.count("cases_with_include_ignore_missing_of_existing_target")
         if "without context %}" in allsrc and "include" in allsrc:
             ctx.count("cases_with_include_without_context")
+        for k, n in case.get("sites", {}).items():
+            if k.startswith("kind:"):
+                ctx.count("site_" + k, n)
+            else:
+                ctx.count("site:" + k, n)
+                ctx.count("site_class:" + k.split(":")[0], n)
         if len(ctx.samples) < 3:
             ctx.sample({"tpls": case["tpls"], "N_data_events": N, "S_suspensions": S,
                         "C_chunks": C, "kind": case["kind"]})
